@@ -9,6 +9,7 @@ mod c11;
 mod c12;
 mod c15;
 mod c16;
+mod c17;
 mod c18;
 mod c20;
 mod cek;
@@ -16,6 +17,7 @@ mod driver;
 mod flatgen;
 mod gen;
 mod prng;
+mod projgen;
 mod report;
 mod sx;
 mod tygen;
@@ -37,6 +39,9 @@ fn main() {
     // child-process entries (run in a fresh process so that a stack overflow is an observation)
     if sub == "c20-flat-deep" {
         c20::deep_child(args[2].parse().expect("depth"), &args[3]);
+    }
+    if sub == "c17-child" {
+        c17::child(&args);
     }
     let mut ctx = Ctx { seed: 1, thorough: false, replay: None };
     let mut out: Option<String> = None;
@@ -77,6 +82,7 @@ fn main() {
         "c12-probe" => c12::probe(&ctx),
         "c12-corr" => c12::corr(&ctx),
         "c18-apply" => c18::apply(&ctx),
+        "c17-iso" => c17::run(&ctx),
         other => {
             eprintln!("unknown sub-command {other}");
             std::process::exit(2);
